@@ -136,6 +136,8 @@ class Swarm:
 
     def __init__(self, rng, props):
         self.n_ops = rng.choice([10, 20, 30, 40, 60])
+        if rng.random() < 0.01:
+            self.n_ops = 400         # a long history now and then
         self.p_productive = rng.choice([0.3, 0.5, 0.5, 0.7, 0.9])
         self.p_visible = rng.choice([0.2, 0.4, 0.6])
         self.p_reset = rng.choice([0.0, 0.02, 0.03, 0.08])
@@ -291,8 +293,12 @@ class EnvSim:
     # ------------------------------------------------------------------
     def _do_reset(self, first=False):
         env = self.env
+        kw = {}
+        op = getattr(self, "_op", None)
+        if not first and op is not None and op.get("op") == "reset":
+            kw = dict(op.get("kw") or {})
         try:
-            out = env.reset()
+            out = env.reset(**kw)
         except Exception as e:
             raise SutError("reset", e)
         self.n_since_reset = 0
@@ -462,13 +468,13 @@ class EnvSim:
                 self.exec_op(g)
                 continue
             if self.episode_over and wl.random() > swarm.p_post_terminal:
-                op = {"op": "reset"}
+                op = self._gen_reset(wl)
             else:
                 r = wl.random()
                 if wl.random() < swarm.p_reconstruct:
                     op = {"op": "reconstruct"}
                 elif r < swarm.p_reset:
-                    op = {"op": "reset"}
+                    op = self._gen_reset(wl)
                 elif r < swarm.p_reset + swarm.p_query:
                     op = self._gen_query(wl)
                 elif r < swarm.p_reset + swarm.p_query + swarm.p_gstep:
@@ -484,6 +490,18 @@ class EnvSim:
             self.exec_op(op)
             if op["op"] == "reset" and wl.random() < 0.1:
                 self.exec_op({"op": "reset"})      # double reset
+
+    def _gen_reset(self, wl):
+        """reset(), sometimes through the other documented Gymnasium
+        arguments (they must not change what reset does)."""
+        r = wl.random()
+        if r < 0.15:
+            return {"op": "reset", "kw": {"seed": wl.randint(0, 2 ** 31 - 1)}}
+        if r < 0.25:
+            return {"op": "reset", "kw": {"options": {}}}
+        if r < 0.30:
+            return {"op": "reset", "kw": {"seed": None, "options": None}}
+        return {"op": "reset"}
 
     def _gen_query(self, wl):
         kinds = []
